@@ -539,6 +539,7 @@ def check_C07(ctx):
     tab = ctx.snap.dump()['tld']
     labels = gens.tld_labels(tab, ctx.rnd, full=ctx.thorough())
     labels += sub(ctx, gens.row_bitflips([bytes.fromhex(n) for n, l, t in tab]), 2)      # rows with one bit of one octet flipped (home-made case folding, 7-bit compares)
+    labels += [b'xn--' + bytes.fromhex(n)[k:] for n, l, t in tab for k in (4,) if len(n) > 2 * k]      # the ACE prefix glued to the tail of every row
     desc = lambda ln, a, b: 'is_tld / e-mail TLD class differs from the model (C07_lookup_whole_label: first row ci-EQUAL to the whole label of the table dumped from this build): implementation %s, model %s' % (a, b)
     corr(ctx, 'is_tld(labels)', ['T %s' % hx(l) for l in labels], lambda ln, o: o, nontrivial=lambda ln, o: o != '-26' or len(ln) > 8,
          describe=desc, note='every table row in 4 case patterns, every proper prefix, one-character extensions, substitutions, neighbour concatenations, random labels')
@@ -590,6 +591,12 @@ def check_C07(ctx):
             nb += 1
             relation_violation(ctx, 'C07_U_and_A_label_agree', {'u_label': hx(d), 'a_label': hx(a), 'rc_u': res.get(hx(d)), 'rc_a': res.get(hx(a)),
                                'explanation': 'U-label and A-label spelling of the same domain classified differently in mode 6531'})
+    # LABELS_ALLOW_UNDERSCORE build: where the last label begins must not depend on the option ('_' is a label character there, not a separator)
+    lu = ctx.snap.lib(uscore=True)
+    ud = [b'b.x_com', b'x_com', b'b._com', b'b.com_', b'b.c_om', b'a_b.com', b'b.x_test', b'x_test', b'b.x_museum', b'_com', b'b.x-com', b'b.xcom', b'b.x_c_om', b'b.co_m', b'b_.com', b'b._.com',
+          b'x_example.com', b'example_.com', b'b.x_example.com', b'b.x_xn--p1ai', b'b_c.x_de', b'b.x_arpa', b'b.X_COM', b'a.b.c_org']
+    corr(ctx, 'underscore build(last label)', gens.e_lines([b'u@' + d for d in ud], vlib.idn_oracle(ud), tlds=(1,)), first_fields(1), lib=lu, describe=desc, nontrivial=nontriv_addr,
+         note='names with an underscore in and around the last label, four modes, TLD checking on, library built with LABELS_ALLOW_UNDERSCORE=ON')
     # time-boxed sweep of is_tld over ALL labels over [a-z0-9-], shortest first, one process per first character: an unlisted label that gets
     # a class (a look-up that no longer compares the whole name: hashing, a trie cut short) shows within the box exactly when the look-up is fast
     import subprocess
@@ -729,6 +736,7 @@ def check_C11(ctx):
     labels += [n + b'x' for n in expect] + [n + b'xy' for n in expect] + [n + b'-shop' for n in list(expect)[::3]] + [n[:-1] for n in expect if len(n) > 1] + [(n + b'a').upper() for n in list(expect)[::2]]
     labels += [b'x' + n for n in list(expect)[::2]] + [n + n for n in list(expect)[::5]]
     labels += gens.row_bitflips(list(expect))        # one bit of one octet of every row flipped: found only if the comparison folds more than letter case
+    labels += [b'xn--' + n[k:] for n in expect for k in (1, 3, 4, 5) if len(n) > k] + [n[:4] + b'--' + n[4:] for n in list(expect)[::3] if len(n) > 4] + [b'XN--' + n[4:].upper() for n in list(expect)[::7] if len(n) > 4]
     tl = ['T %s' % hx(l) for l in labels]
     corr(ctx, 'lookup(all rows + near misses)', tl, lambda ln, o: o, exhaustive=True, nontrivial=lambda ln, o: True,
          describe=lambda ln, a, b: 'is_tld differs from the lookup model over the dumped table: %s vs %s' % (a, b))
@@ -1010,6 +1018,11 @@ def check_C15(ctx):
     for nme, l, t in tab['tld']:
         byclass.setdefault(t, bytes.fromhex(nme))
     addrs += [b'a@b.' + v for v in byclass.values()]
+    for inner in (b'1', b'::1', b'1.2.3.4', b'a', b'IPv6:::1', b''):
+        for k in range(0, 13):
+            addrs += [b'a@[' + inner + b']' + b'23456789abcdef'[:k], b'a@[' + inner + b']' + b'x' * k + b']', b'a@[' + inner + b'x' * k]
+    for q in (b'":"', b'"["', b'"]"', b'"a:b"', b'"@["', b'"IPv6:"'):
+        addrs += [q + b'@[1.2.3.4]', q + b'@[IPv6:::1]', q + b'@[1::2:3:4]', q + b'@[1.2.3]', q + b'@b.com']
     # address literals: every content shape of the C05 family, among them both letter cases of the hexadecimal digits
     addrs += [b'u@[' + c + b']' for c in sub(ctx, gens.ip_contents(), 3)] + [b'u@[' + c + b']' for c in (b'A::1:2:3', b'IPv6:A::1', b'IPv6:2001:DB8::1', b'IPv6:aBcD:EF01::', b'::FFFF:1.2.3.4', b'IPv6:F::', b'fe80::A')]
     # non-ASCII characters next to the structural characters of a local part (among them code points whose low byte is '.', '"', '@', '\\')
@@ -1248,6 +1261,9 @@ def check_C17(ctx):
     Dd = gens.dom_class(5) + gens.dom_boundary(chars=(b'_', b'x', b'-'))
     D = gens.dom_lines(Dd) + gens.dom_lines([d.replace(b'_', b'a') for d in Dd])
     addrs = gens.addr_structured() + [b'a#b@c.org', b'"a#b"@c.org', b'a@b_c.org', b'a_b@c_d.e_f', b'"a b"@c.org', b'a~b.{c}@d.com'] + gens.addr_class(3, alpha=[b'a', b'_', b'#', b'.', b'@', b'"', b' '])
+    # an underscore in and around the last label, in front of listed and reserved names: where the last label begins must not depend on the option
+    addrs += [b'a@' + d for d in (b'b.x_com', b'x_com', b'b._com', b'b.com_', b'b.c_om', b'a_b.com', b'b.x_test', b'x_test', b'b.x_museum', b'_com', b'b.x-com', b'b.xcom', b'b.x_c_om', b'b.co_m',
+                                   b'b_.com', b'b._.com', b'x_example.com', b'example_.com', b'b.x_example.com', b'b.xn--p1ai_', b'b.x_xn--p1ai', b'b.com._', b'b_c.x_de')]
     addrs += [l + b'@' + d for l in [bytes([c]) for c in b'#^`{|}~'] + [b'a' + bytes([c]) + b'b' for c in b'#^`{|}~'] + [b'"' + bytes([c]) + b'"' for c in b'#^`{|}~'] + [b'"a b".#', '\u044e#b'.encode(), b'"a\tb"', b'" a"', b'"a "', b'"a\\ b"']
               for d in (b'a.io', b'example.com', b'[1.2.3.4]')]
     orc = vlib.idn_oracle(gens.domains_of(addrs))
@@ -1267,6 +1283,18 @@ def check_C17(ctx):
             nonascii += [p + c.encode() + q for c in ('\u00fc', '\u042e', '\u20ac', '\U0001f600') for p in (b'', b'a', b'"', b'"a ', b'"a\t', b'"a\r\n ', b'a.', b'"a" ', b'" ') for q in (b'', b'b', b'"', b'b"', b' b"', b'.b', b'"b', b' "')]
             homomorphism_check(ctx, lib, 'C17_non_ascii_as_one_more_character(%s)' % name, nonascii, 2 if f53 else 1,
                                'mode 6531 on a well-formed non-ASCII local part = mode %s of the same build on its ASCII image' % ('5322' if f53 else '5321'))
+    # the options given the other way the README documents — exported variables instead of make arguments, the options that are off
+    # not mentioned at all: the build must be the same library
+    for key, kw in (((1, 0, 0), {'rfc20': True}), ((0, 1, 0), {'f5322': True}), ((0, 0, 1), {'uscore': True})):
+        le = ctx.snap.lib(via_env=True, **kw)
+        got = tuple(vlib.run_both(le, ctx.snap, X)[0] for X in (L[:20000], D[:20000], E))
+        ref = (outs[key][0][:20000], outs[key][1][:20000], outs[key][2])
+        ctx.rep.add_cases('build(options through the environment: %s)' % ','.join(kw), E, got[2], lambda ln, o: True, note='same cases as the build with the option as a make argument; outputs must be identical')
+        for X, g, r_ in zip((L[:20000], D[:20000], E), got, ref):
+            bad = [(l, a, b) for l, a, b in zip(X, g, r_) if a != b]
+            for l, a, b in bad[:2]:
+                ctx.rep.violation({'kind': 'relation', 'relation': 'C17_option_independent_of_how_it_is_given', 'option': kw, 'case': l, 'built_with_exported_variable': a, 'built_with_make_argument': b,
+                                   'explanation': 'the library built with %s=ON exported in the environment (other options unset) behaves differently from the one built with the option as a make argument' % list(kw)[0]})
     base = outs[(0, 0, 0)]
     nb = [0]
     def viol(rel, obj):
@@ -1397,6 +1425,14 @@ def check_C05(ctx):
             addrs.append(b'u@' + pre + b'[' + c + b']' + post)
     addrs += [a for a in src_addrs(ctx) if b'@[' in a]
     addrs += [b'u@[' + c + b']' for c in small[::3]] + [b'u@[', b'u@[]', b'u@[1.2.3.4', b'u@]1.2.3.4[', b'u@[[1.2.3.4]]', b'"u@["@[1.2.3.4]']
+    # literals behind quoted local parts that contain what the composer searches the literal for (':', brackets, the tag, '@', a dot)
+    for q in (b'":"', b'"["', b'"]"', b'"a:b"', b'"[1.2.3.4]"', b'"@["', b'"IPv6:"', b'"x]"', b'"::"', b'"a.b"', b'":"."]"'):
+        for c in (b'1.2.3.4', b'IPv6:::1', b'IPv6:1:2:3:4:5:6:7:8', b'1::2:3:4', b'::1.2.3.4', b'IPv6:::ffff:1.2.3.4', b'1.2.3', b'IPv6:1.2.3.4', b'IPv6:', b'::', b'1:2:3:4:5:6:7:8'):
+            addrs.append(q + b'@[' + c + b']')
+    # junk of every length 0-12 behind the closing bracket, and a second bracket pair
+    for inner in (b'1', b'::1', b'1.2.3.4', b'a', b'IPv6:::1', b''):
+        for k in range(0, 13):
+            addrs += [b'a@[' + inner + b']' + b'23456789abcdef'[:k], b'a@[' + inner + b']' + b'x' * k + b']', b'a@[' + inner + b'x' * k]
     el = gens.e_lines(addrs, {})
     corr(ctx, 'addresses', el, first_fields(3), describe=desc, nontrivial=nontriv_addr, level=lvl_email())
     # the property itself, on implementation outputs
@@ -1430,6 +1466,8 @@ def check_C10(ctx):
     import csv
     raw = list(csv.reader(open(os.path.join(ctx.snap.src, 'data', 'raw.csv'), newline='', encoding='utf-8')))[1:]
     doms += [('mail.' + r[0]).encode() for r in raw if any(ord(ch) > 127 for ch in r[0])]
+    # every IDN row stretched by repeating its last character (the longest row among them): beyond the table in both spellings
+    doms += [('b.' + r[0] + r[0][-1]).encode() for r in raw if any(ord(ch) > 127 for ch in r[0])] + [('b.' + r[0] + x).encode() for r in raw if any(ord(ch) > 127 for ch in r[0]) for x in ('ü', 'ÿ', 'я')]
     asc = sub(ctx, gens.dom_class(5), 4) + sub(ctx, gens.dom_boundary(), 3) + [d for d in sub(ctx, gens.reserved_domains(), 11)] + [b'B.CoM', b'Example.ORG', b'TEST', b'b.MUSEUM', b'A-B.c-D.Int']
     orc = vlib.idn_oracle(doms + asc)
     alab = sorted(set(a for d in doms for (rc, a) in [orc[d]] if rc == 0 and a))
@@ -1574,6 +1612,9 @@ def cli_files(rnd, n, big):
     if not big: cands = cands[::3] + [u for u in cands if u[0] in (0xe0, 0xed, 0xf0, 0xf4) and u[1] in (0x80, 0x8f, 0x90, 0x9f, 0xa0, 0xbf)]
     files.append(b''.join(u + b'\n' for u in cands))
     files.append(b''.join(b'a' + u + b'b@x.org\n' for u in cands))
+    # every short local part over the structural alphabet as a line (the tool's copy of the decoder and its state sit under the library's scanner)
+    files.append(b''.join(bytes.fromhex(l.split()[1]) + b'@b.io\n' for l in gens.local_class(3) if l.split()[1] != '-' and b'\n' not in bytes.fromhex(l.split()[1]) and 0 not in bytes.fromhex(l.split()[1])))
+    files.append(b''.join(x + b'@b.io\n' for x in (b'"a".', b'"a".b', b'a."b"', b'"a"."b"', b'"a"..b', b'."a"', b'"a"b', b'"\xd0\xb0".', b'"a".\xd0\xb0', b'a.', b'"a" .b', b'"a\\"".', b'""', b'"".', b'"a".""')))
     # what only the very first octets of a file can be: byte-order marks, a shebang, a NUL — the first line is a line like every other
     for mark in (b'\xef\xbb\xbf', b'\xff\xfe', b'\xfe\xff', b'#!', b'\x00', b'\xef\xbb', b'\xef\xbb\xbf\xef\xbb\xbf', b' \xef\xbb\xbf'):
         for first in (b'', b'a@b.com', b'#comment', b' a@b.com ', b'bad', 'я@почта.рф'.encode(), b'a@xn--a'):
@@ -1765,7 +1806,8 @@ def check_C14(ctx):
 def check_C18(ctx):
     step_proof(ctx)
     addrs = sorted(set(gens.addr_structured() + gens.addr_class(3) + sub(ctx, gens.addr_boundary(), 3) + [b'u@' + d for d in sub(ctx, gens.reserved_domains(), 13) if b'@' not in d] + [b'u@' + d for d in gens.mapped_variants()] +
-                       [b'u@' + d for d in gens.idn_domains(ctx.rnd, 300) if b'@' not in d]))
+                       [b'u@' + d for d in gens.idn_domains(ctx.rnd, 300) if b'@' not in d] +
+                       [b'u@b.' + bytes.fromhex(n) for n, l, t in ctx.snap.dump()['tld'] if len(n) >= 2 * 18 or n.startswith('786e2d2d')]))      # every long row and every xn-- row
     orc = vlib.idn_oracle(gens.domains_of(addrs) | gens.domains_of(gens.HIST_POOL))
     el = gens.e_lines(addrs, orc)
     ul = gens.u_lines(sorted(gens.domains_of(addrs)), orc)
